@@ -68,6 +68,10 @@ var c19Templates = []c19t{
 	{"not-exists", "SELECT id FROM t WHERE NOT EXISTS (SELECT q FROM items WHERE FAULT(q) > 100)", false},
 	{"union-left", "SELECT FAULT(id) AS id FROM t UNION ALL SELECT c FROM u", false},
 	{"union-right", "SELECT id FROM t UNION SELECT FAULT(c) AS id FROM u", false},
+	// a failure next to calls that run in goroutines of their own: the next Exec of the same Query (run by
+	// the re-execution step below) must await and invoke them as a fresh query does
+	{"async-next-to-failure", "SELECT id, ASYNC.HMID(a) AS m, FAULT(a) AS f FROM t", false},
+	{"spinasync-next-to-failure", "SELECT id, SPINASYNC.HMID(a), FAULT(id) AS f FROM t WHERE a > 0", false},
 	// evaluation deferred to post-processing
 	{"await", "SELECT id, AWAIT(FAULT(a)) AS f FROM t", false},
 	{"await-subquery", "SELECT id, AWAIT((SELECT FAULT(q) AS q FROM items)) AS s FROM t", false},
@@ -339,6 +343,9 @@ func (p *c19) RunCase(i int) *core.CaseResult {
 				// the same Query object: Exec with the failure, then Exec without it
 				if f1, f2 := execTwice(p.doc(tbl), t.sql, k); f2 != nil && f1.Err != nil && !f1.InNew {
 					r.Execs += 2
+					if f2.GPanic != "" {
+						r.Fail("C19|"+t.clause+"|second-exec-goroutine-panic", fmt.Sprintf("%s on %s: Exec failed at invocation %d; Exec of the same Query object again: a library goroutine panicked: %s", t.sql, gq.Render(p.doc(tbl)["t"]), k, f2.GPanic), map[string]any{"sql": t.sql, "fault_at": k, "doc": p.doc(tbl)})
+					}
 					if got, want := outcome(f2), outcome(o0); got != want && !p.kinds(t).bag && !strings.Contains(t.sql, "ONCE.") {
 						r.Fail("C19|"+t.clause+"|second-exec-differs", fmt.Sprintf("%s on %s: Exec failed at invocation %d; Exec of the same Query object again, without fault, returned %s, a fresh query returns %s", t.sql, gq.Render(p.doc(tbl)["t"]), k, got, want), map[string]any{"sql": t.sql, "fault_at": k, "doc": p.doc(tbl)})
 					}
@@ -401,7 +408,13 @@ func (p *c19) schedules(r *core.CaseResult, t *c19t, tbl []int, k int) {
 // fault at invocation `at` (0: none), the second time without any fault.
 func execTwice(doc map[string]any, sql string, at int) (first, second *gq.Out) {
 	first, second = &gq.Out{}, &gq.Out{}
-	vrt.Run(gq.Seq, nil, func() {
+	var res *vrt.Result
+	defer func() {
+		if res != nil && res.GPanic != "" && second != nil {
+			second.GPanic = res.GPanic
+		}
+	}()
+	res = vrt.Run(gq.Seq, nil, func() {
 		resetFaults(at)
 		hOnceCounter = 0
 		var q *genql.Query
@@ -446,7 +459,7 @@ func (p *c19) kinds(t *c19t) c19kind {
 
 func (p *c19) Meta() core.Meta {
 	return core.Meta{
-		Rule:        "one case per template: 73 templates with the fault point FAULT(x) / RAISE_WHEN in every clause position (WHERE connectives and operators, select list incl. star / arithmetic / CASE / function arguments / ONCE, DISTINCT, ORDER BY, LIMIT, HAVING, grouped and whole-table aggregates, CTE body / consumer / chain / double reference, derived table and consumer, select-list / IN / EXISTS subqueries incl. <- and nested queries that fail while being built (derived table, CTE, union branch inside a subquery), AWAIT-deferred evaluation in the select list of the query / a derived table / a CTE / a union branch / a nested FROM, union branches, join consumers, derived join sides (left and right operand) and join ON expressions for every join kind - for PARALLEL joins with an unmatched left key and additionally under every completion order of the per-key goroutines and every key iteration order within 1 (thorough 2) deviations -, nested FROM) and 28 templates that fail by themselves (each run three times) (type errors in every clause incl. join ON, GROUP BY / ORDER BY of non-columns, unknown functions, arity, out-of-range indices, wrong shapes, non-array FROM, non-integer LIMIT), on every table of 1..2 (thorough 3) rows over 3 archetypes; each fault template is run fault-free to count N invocations and then once per k = 1..N, without and with an UnReportedErrors handler installed. Oracle: New/Exec report an error and return no rows; then 6 follow-up queries on the same document object equal their results on a pristine copy; the failed Query object itself, executed again without the fault, returns what a fresh query returns (a self-failing one fails again). non-trivial = a failure was injected and surfaced",
+		Rule:        "one case per template: 75 templates with the fault point FAULT(x) / RAISE_WHEN in every clause position (WHERE connectives and operators, select list incl. star / arithmetic / CASE / function arguments / ONCE, DISTINCT, ORDER BY, LIMIT, HAVING, grouped and whole-table aggregates, CTE body / consumer / chain / double reference, derived table and consumer, select-list / IN / EXISTS subqueries incl. <- and nested queries that fail while being built (derived table, CTE, union branch inside a subquery), AWAIT-deferred evaluation in the select list of the query / a derived table / a CTE / a union branch / a nested FROM, union branches, join consumers, derived join sides (left and right operand) and join ON expressions for every join kind - for PARALLEL joins with an unmatched left key and additionally under every completion order of the per-key goroutines and every key iteration order within 1 (thorough 2) deviations -, nested FROM) and 28 templates that fail by themselves (each run three times) (type errors in every clause incl. join ON, GROUP BY / ORDER BY of non-columns, unknown functions, arity, out-of-range indices, wrong shapes, non-array FROM, non-integer LIMIT), on every table of 1..2 (thorough 3) rows over 3 archetypes; each fault template is run fault-free to count N invocations and then once per k = 1..N, without and with an UnReportedErrors handler installed. Oracle: New/Exec report an error and return no rows; then 6 follow-up queries on the same document object equal their results on a pristine copy; the failed Query object itself, executed again without the fault, returns what a fresh query returns (a self-failing one fails again). non-trivial = a failure was injected and surfaced",
 		Assumptions: []string{"only synchronously evaluated steps are claimed (ASYNC / SPIN failures go to the UnReportedErrors handler)", "the type error of t2 strikes on the last row only, so a partial result would be visible"},
 		Bounds:      map[string]any{"templates": len(c19Templates), "tables": len(p.tables), "followups": len(c19Followups)},
 		Exhaustive:  true,
